@@ -6,7 +6,7 @@ import itertools
 import os
 import re
 
-T0 = 1394368200  # multiple of SC
+T0 = 1394333990  # 2014-03-09T02:59:50Z, multiple of SC: subdirectories 02-59-50, 03-00-00, 03-00-10
 SC = 10          # subdirectory cadence (s) of every generated channel
 EPOCH = datetime.datetime(1970, 1, 1, tzinfo=datetime.timezone.utc)
 
